@@ -70,6 +70,8 @@ pub struct Ctx {
     nontrivial: AtomicU64,
     traces: AtomicU64,
     n_violations: AtomicU64,
+    /// hangs / abnormal worker deaths that did not reproduce when the case was run again alone
+    unconfirmed: AtomicU64,
     stop: AtomicBool,
     violations: Mutex<Vec<Violation>>,
     class_counts: Mutex<BTreeMap<String, u64>>,
@@ -278,6 +280,7 @@ impl Ctx {
             nontrivial: AtomicU64::new(0),
             traces: AtomicU64::new(0),
             n_violations: AtomicU64::new(0),
+            unconfirmed: AtomicU64::new(0),
             stop: AtomicBool::new(false),
             violations: Mutex::new(Vec::new()),
             class_counts: Mutex::new(BTreeMap::new()),
@@ -657,6 +660,7 @@ impl Ctx {
         }
         cov.set("universes", J::Arr(uj));
         cov.set("cap_hit", J::Bool(capped));
+        cov.set("hangs_or_worker_deaths_not_reproduced_on_rerun", J::i(self.unconfirmed.load(Ordering::Relaxed)));
         cov.set("known_finding_cases", J::i(known_hits));
         cov.set("threads", J::i(self.threads as u64));
         for (k, v) in self.extra.lock().unwrap().iter() {
@@ -838,7 +842,8 @@ impl Ctx {
             {
                 let started = started.clone();
                 let t0 = self.start;
-                let limit = case_secs;
+                // a confirmation run (see the parent side) grants four times the deadline
+                let limit = case_secs * std::env::var("VERIF_DEADLINE_FACTOR").ok().and_then(|f| f.parse::<f64>().ok()).unwrap_or(1.0);
                 std::thread::spawn(move || loop {
                     std::thread::sleep(Duration::from_millis(50));
                     let idx = started.0.load(Ordering::Acquire);
@@ -1012,10 +1017,71 @@ impl Ctx {
                                 self.machinery_error(format!("worker for {name} [{lo},{b}) died ({:?}) without a usable progress record", outp.status));
                                 return;
                             };
+                            // A hang or an abnormal death must be reproducible to count: the case is run once more, alone, in a
+                            // fresh worker with four times the deadline. (A cold start right after a restore, a loaded machine or
+                            // the kernel's OOM killer can make one execution slow or kill it; the same case failing twice cannot be
+                            // blamed on that.) If the confirmation run completes, its own verdicts are taken instead.
+                            {
+                                let script = format!("ulimit -v {}; exec \"$0\" \"$@\"", mem_mib * 1024);
+                                let pf2 = pf.with_extension("confirm");
+                                let _ = fs::write(&pf2, u64::MAX.to_le_bytes());
+                                let again = std::process::Command::new("sh")
+                                    .arg("-c")
+                                    .arg(&script)
+                                    .arg(exe)
+                                    .args(["--tier", self.tier.name(), "--worker", name, &c.to_string(), &(c + 1).to_string()])
+                                    .arg(&pf2)
+                                    .env("VERIF_THREADS", "1")
+                                    .env("VERIF_DEADLINE_FACTOR", "4")
+                                    .stderr(std::process::Stdio::null())
+                                    .output();
+                                let _ = fs::remove_file(&pf2);
+                                if let Ok(again) = again {
+                                    let t2 = String::from_utf8_lossy(&again.stdout);
+                                    let done2 = t2.lines().any(|l| l.starts_with("WORKER-DONE"));
+                                    if again.status.success() && done2 && !t2.lines().any(|l| l.starts_with("WORKER-HANG")) {
+                                        // not reproducible: take the verdicts of the confirmation run
+                                        for line in t2.lines() {
+                                            let mut f = line.split('\t');
+                                            match f.next() {
+                                                Some("WORKER-VIOLATION") => {
+                                                    let class = f.next().unwrap_or("").to_owned();
+                                                    let idx = f.next().and_then(|x| x.parse().ok()).unwrap_or(0);
+                                                    let msg = unesc_line(f.next().unwrap_or(""));
+                                                    let mut v = self.violations.lock().unwrap();
+                                                    if v.iter().filter(|x| x.class == class).count() < 8 {
+                                                        v.push(Violation { class, universe: name.to_owned(), idx, msg });
+                                                    }
+                                                }
+                                                Some("WORKER-CLASS") => {
+                                                    let class = f.next().unwrap_or("").to_owned();
+                                                    let n: u64 = f.next().and_then(|x| x.parse().ok()).unwrap_or(0);
+                                                    self.n_violations.fetch_add(n, Ordering::Relaxed);
+                                                    *self.class_counts.lock().unwrap().entry(class).or_insert(0) += n;
+                                                }
+                                                Some("WORKER-DONE") => {
+                                                    let n: Vec<u64> = f.filter_map(|x| x.parse().ok()).collect();
+                                                    if n.len() == 5 {
+                                                        self.transitions.fetch_add(n[1], Ordering::Relaxed);
+                                                        self.states.fetch_add(n[2], Ordering::Relaxed);
+                                                        self.nontrivial.fetch_add(n[3], Ordering::Relaxed);
+                                                        self.traces.fetch_add(n[4], Ordering::Relaxed);
+                                                    }
+                                                }
+                                                _ => {}
+                                            }
+                                        }
+                                        self.unconfirmed.fetch_add(1, Ordering::Relaxed);
+                                        self.evals.fetch_add(c - lo + 1, Ordering::Relaxed);
+                                        lo = c + 1;
+                                        continue;
+                                    }
+                                }
+                            }
                             let (class, what) = if hang_idx.is_some() {
-                                ("hang", format!("case did not return within {case_secs} s"))
+                                ("hang", format!("case did not return within {case_secs} s, and not within {} s when run again alone", case_secs * 4.0))
                             } else {
-                                ("abort", format!("worker process died: {:?} (address-space limit {mem_mib} MiB)", outp.status))
+                                ("abort", format!("worker process died: {:?} (address-space limit {mem_mib} MiB), and again when the case was run alone", outp.status))
                             };
                             let class = classify(c, class);
                             let class = class.as_str();
